@@ -37,6 +37,9 @@ LEVEL_TEXT = (
 )
 LEVEL_NOTE = "Trusted: CPython random.Random method structure, Hypothesis, the Wilson-Hilferty chi-square quantile approximation."
 TECHNIQUE = "exhaustive enumeration of a scripted random source + GF(2) rank test + Hypothesis injectivity + seeded chi-square statistics"
+#: thorough tier: seed-dependent tasks are repeated under this many derived seeds (run.py); the listed task functions enumerate fixed domains
+THOROUGH_REPS = 2
+DETERMINISTIC_FNS = ('t_exh_bytes', 't_exh_str', 't_context_salt', 't_linear_bytes')
 
 ALPHABETS = [
     "01", "abc", "0123456789", "0123456789abcdef", table.H64, table.DJANGO_SALT,
